@@ -184,6 +184,22 @@ def c10_3(ctx, r):
                         raised = True
         if not raised:
             r.bad(key_of(fn, "no mismatch branch"), fn.loc(), f"{fn.short} has no branch comparing the in-memory version with the version file")
+        # the comparison is unconditional: every normal path through the serialiser passes it (a call that finds "nothing
+        # changed" must still reject a stale handle - the caller goes on to write the other file)
+        tests = []
+        for n in cfg.nodes:
+            for d, k, c in n.succ:
+                if k in ("T", "F") and c is not None:
+                    from ..lib import norm, swap_eq
+
+                    form, pol = norm(ctx, fn, c, n, pol=(k == "T"))
+                    if form in (want, swap_eq(want)):
+                        tests.append(n)
+        from ..lib import dominated_by as _dom
+
+        r.check(bool(tests) and _dom(ctx, fn, cfg.exit, tests, NORMAL_KINDS), f"{fn.short}: the version comparison is on every normal path", key_of(fn, "version comparison skipped on a path"), fn.loc(),
+                f"{fn.short} can return normally without having compared the versions (the comparison sits under another condition): a stale handle whose copy of this file needs no rewrite is not rejected, "
+                "and its caller goes on to write the other state file", "A process holding an out-of-date copy of the cluster state cannot write it")
         # reader reads the file the writer writes
         rf, wf = ctx.fn(reader, "C10.3"), ctx.fn(writer, "C10.3")
         def opens(f, modes):
@@ -288,6 +304,19 @@ def _check_wrapper(ctx, r, w, rule_id):
         ok = always_followed_by(ctx, w, n, rel, ALL_KINDS, exits=[cfg.exit, cfg.raise_exit])
         r.check(ok, f"{w.short}: release on every exit after func()", key_of(w, "release after func"), w.loc(n.stmt),
                 "a path from func(...) to an exit of the wrapper does not release the lock (every later command blocks)")
+    # an exception out of func(...) leaves the wrapper as an exception (never swallowed: the caller would take the
+    # failed state update for done, remove the crashed-round marker and release the role)
+    for n in fcall:
+        seen, stack = set(), [d for d, k, _ in n.succ if k == "exc"]
+        while stack:
+            x = stack.pop()
+            if x.id in seen:
+                continue
+            seen.add(x.id)
+            stack.extend(d for d, k, _ in x.succ if k in ALL_KINDS)
+        r.check(cfg.exit.id not in seen, f"{w.short}: an exception raised by func() propagates to the caller", key_of(w, "exception from func swallowed"), w.loc(n.stmt),
+                f"{w.short} can return normally after func(...) raised (a handler on the way catches the re-raise): the caller believes the locked action succeeded - e.g. a submitter round whose status update "
+                "failed goes on to remove its crashed-round marker, and the next round hands the same jobs to the HPC again", "no job is handed to the HPC twice")
     # the acquire failing (Timeout) must not fall through to func()
     for a in acq:
         exc_succ = [d for d, k, _ in a.succ if k == "exc"]
@@ -334,3 +363,25 @@ def c10_6(ctx, r):
     r.check(ctx.src(_single_return(am)).replace(" ", "") in ("self._config.submitter==self._hostname", "self._hostname==self._config.submitter"), "am_i_submitter = submitter == own hostname", key_of(am, "am_i_submitter"), am.loc(), f"am_i_submitter is `{ctx.src(_single_return(am))}`")
     ok = any(isinstance(n, ast.Assign) and ctx.src(n.targets[0]) == "self._hostname" and ctx.src(n.value) == "socket.gethostname()" for n in iter_own(init.node))
     r.check(ok, "hostname = socket.gethostname()", key_of(init, "hostname"), init.loc(), "Cluster._hostname is not socket.gethostname()")
+
+
+@rule(P, "C10.7", "T10", "every function that writes both state files passes the config serialiser (and its version check) first", min_obligations=2)
+def c10_7(ctx, r):
+    """The config version moves with every role change and every status update, so it is the comparison that catches a
+    stale handle; if the job-status file is written first, a handle with a stale config has already changed
+    job_status.json when ConfigVersionMismatch is raised."""
+    n_fn = 0
+    for f in ctx.ix.functions.values():
+        if f.cls is None or f.cls.name != "Cluster":
+            continue
+        sc = [n for s2 in ctx.sites(f, short="Cluster._serialize") for n in ctx.nodes_of(f, s2.node)]
+        sj = [n for s2 in ctx.sites(f, short="Cluster._serialize_jobs") for n in ctx.nodes_of(f, s2.node)]
+        if not sc or not sj:
+            continue
+        n_fn += 1
+        for j in sj:
+            r.check(dominated_by(ctx, f, j, sc, ALL_KINDS), f"{f.short}: _serialize() dominates _serialize_jobs()", key_of(f, "job status written before the config version check"), f.loc(j.stmt),
+                    f"{f.short} writes job_status.json before the config serialiser compared the config version: a handle whose config copy is out of date (another node was promoted / demoted meanwhile) "
+                    "rewrites job_status.json and its version file and only then gets ConfigVersionMismatch", "the write is rejected with a version-mismatch error and the files on disk are unchanged")
+    if n_fn < 2:
+        raise AnalysisError("C10.7", f"only {n_fn} Cluster methods write both state files (expected _update_job_status and _prepare_for_resubmission)")
